@@ -124,7 +124,8 @@ pub fn run(ctx: &mut Ctx) {
                 for d in rep.years.iter().flat_map(|y| y.disposals.iter()) {
                     let legs = Q::sum(d.legs.iter().map(|x| &x.qty));
                     let sold = Q::sum(l.iter().filter(|t| t.kind == Kind::Sell && t.ticker == d.ticker && t.date == d.date).map(|t| Q::from_dec(t.a)).collect::<Vec<_>>().iter());
-                    if !legs.eq(&sold) || !d.qty.eq(&sold) {
+                    // (quantities rescaled across splits are computed values: 10⁻¹⁸ relative, as everywhere else)
+                    if !legs.close(&sold, 18) || !d.qty.close(&sold, 18) {
                         let what = format!("{} {}: the report's legs add up to {}, its quantity is {}, but {} were sold that day", d.date, d.ticker, legs.approx(), d.qty.approx(), sold.approx());
                         ctx.ev.violation("oracle", what.clone(), replay_text(prop, "oracle (a), report level: cgt-tool report --format json", &what, &l, &[format!("case {name}")]));
                         break;
